@@ -271,3 +271,7 @@ N.append({'id': 'py-rename-locals-and-posonly-params', 'generator': 'rename-pyth
 # (Python: `pass`, 602 sites) and after every `{` that opens a function body, a branch, a loop body
 # or a case arm (C++: `(void)0;`, 680 sites); built and tested (32062 passed)
 N.append({'id': 'noop-statements-everywhere', 'generator': 'insert-noops', 'file': None, 'edits': []})
+
+# generated: every if/else of the Python package turned round (`if not t: B else: A`, 11 sites) and
+# the keyword arguments of every call written in reverse order (52 calls); tested (59303 passed)
+N.append({'id': 'py-if-else-swapped-and-keywords-reversed', 'generator': 'py-shuffle', 'file': None, 'edits': []})
